@@ -163,6 +163,28 @@ def sim_case(draw):
     return c
 
 
+@st.composite
+def sis_tie_case(draw):
+    """fast_nonMarkov_SIS with coarse tables: many events at exactly the same instant.  The engine's outcome does not depend
+    on the order in which simultaneous events are queued (measured: 0 differences in 35 000 generated relabellings of the
+    pinned tree), so relabelling invariance is asserted here as well."""
+    gc = draw(gen.graph_case(2, 6, labels=('int',), weighted=False,
+                             family=draw(st.sampled_from(['random', 'complete', 'cycle', 'star', 'path']))))
+    nodes, adj = oracles.adjacency(gc)
+    pairs = [(u, v) for u in nodes for v in adj[u]]
+    dur = [[draw(st.sampled_from([1.0, 2.0, 1.5])) for _ in range(draw(st.integers(1, 2)))] for _ in nodes]
+    delays = []
+    for _ in pairs:
+        delays.append([sorted(set(draw(st.sampled_from([0.5, 1.0, 1.5, 2.0, 2.5, 3.0])) for _ in range(draw(st.integers(0, 3)))))
+                       for _ in range(draw(st.integers(1, 2)))])
+    I0, _ = draw(gen.initial_sets(gc['nodes'], allow_R=False, max_I=2))
+    c = {'gc': gc, 'dur': dur, 'delays': delays, 'I0': I0, 'tmin': draw(st.sampled_from([0, 0, -2.0, 1.5])), 'api': 'two',
+         'late': draw(st.booleans()), 'which': 'fast_nonMarkov_SIS', 'ties': True}
+    c['tmax'] = c['tmin'] + draw(st.sampled_from([3, 5, 8]))
+    c['bij'] = draw(bijection(gc['nodes']))
+    return c
+
+
 def transport(case):
     """the same case expressed on the relabelled graph (tables follow the nodes / ordered pairs)"""
     gc = case['gc']
@@ -244,7 +266,7 @@ def run_table_sim(case):
 
 def prop_sim(case):
     which = case['which']
-    if which == 'fast_nonMarkov_SIS':
+    if which == 'fast_nonMarkov_SIS' and not case.get('ties'):
         nodes, adj = oracles.adjacency(case['gc'])
         pairs = [(u, v) for u in nodes for v in adj[u]]
         _, coincide = c13.reference(nodes, adj, dict(zip(nodes, case['dur'])), dict(zip(pairs, case['delays'])),
@@ -273,7 +295,7 @@ def prop_sim(case):
     except Exception as e:
         fails.append(Failure('%s:relabelled:exception:%s' % (which, exc_signature(e)), 'relabelled run raised %r' % (e,)))
     active = sum(1 for u in h1 if len(h1[u][0]) > 1)
-    return Result(fails, nontrivial=active >= 2, classes=[which])
+    return Result(fails, nontrivial=active >= 2, classes=[which] + (['simultaneous-events'] if case.get('ties') else []))
 
 
 def replay(ctx, sub, case):
@@ -296,3 +318,4 @@ def run(ctx):
             run_hypothesis(ctx, 'ode', ode_case(nm), prop_ode, (30 if nm in NODE_LEVEL else 16) if quick else 500, rounds=3)
     if not only or 'simulators' in only:
         run_hypothesis(ctx, 'simulators', sim_case(), prop_sim, 2500 if quick else 30000)
+        run_hypothesis(ctx, 'simulators', sis_tie_case(), prop_sim, 500 if quick else 10000)
